@@ -9,14 +9,21 @@ CONF = dict(
  '(drift, d1, d2) observed at d1, d2 and d1 + d2 (kind units.drift_add); tag drift-oracle = the pair lies in the range the drift oracle constrains; 48-bit CSPTP seconds x nanoseconds incl. range ends and out-of-range times; 64-bit correction fields; '
  '(t0,t2,theta,delta,c1,c3) and (t0,t2,theta,d1,d2,c1,c3,utc) tuples for the offset/delay formulas with absolute times t0, t2 drawn from present-day Unix times '
  '(2020-2040, tag modern-time), the epoch, the ends of the int64 nanosecond range (tag extreme-time) and anything between; four arbitrary or present-day timestamps '
- 'for kind csptp.formulas. Non-trivial: negative nanosecond counts, non-zero in-range ppm values, non-zero drift, wire '
+ 'for kind csptp.formulas. kind csptp.client: the real CSPTP client (core/client.CSPTPClientIP.MeasureClockOffset) against a scripted responder on 127.18.<pid>:319/320 whose timestamps are theta ahead '
+ '(0, +-ns .. +-1 s, +-37 s, days, up to 2^58 ns), with correction fields incl. negative ones and sub-ns bits, any int16 UTC offset with the valid flag on/off, other flag bits, both reply orders and 0-3 ms '
+ 'between the replies; kind csptp.ts_reencode: any 32-bit nanoseconds field incl. the last 48-bit seconds; kind units.callsites: go/ast check of the adjtimex call sites. Non-trivial: negative nanosecond counts, non-zero in-range ppm values, non-zero drift, wire '
  'round trips, negative correction fields with sub-ns bits, formula recovery cases; distinct = distinct (kind, input)'),
     assumptions=['float64 arithmetic of Go on amd64 = IEEE-754 binary64 round-to-nearest-even without FMA contraction (Flocq BinarySingleNaN); int64(float64) = CVTTSD2SI '
  '(-2^63 when out of range)',
- 'drift clause: 0 < drift <= MaxInt64, 0 <= interval <= MaxInt64, drift x interval < 2^62 x 10^9 (allowance below 2^62 ns); negative intervals/drifts and allowances in '
- '[2^62, 2^63) ns are compared with the model only (oracle true there)',
  "CSPTP formula theorems: every int64 subtraction/addition of the Go code stays in int64 (t1-t0, t3-t2, these minus the corrections, their difference/sum; for the one-way delays also "
  "the UTC correction) - the property's 'combinations that do not overflow'; the absolute times are unrestricted",
+ 'csptp.client: client and responder read the same CLOCK_REALTIME of this machine, nobody steps it during a run (no harness ever calls adjtimex); kernel timestamps or the '
+ 'fallback time.Now() of a read-only stub clock; the oracle allows 1 us beyond the delay bounds the harness measures',
+ 'units.callsites is a SYNTACTIC tie (trusted): the adjtimex call sites in driver/clocks/sysclk_linux.go, core/sync/adjustments/{sys,pi}_linux.go cannot be executed; checked is that Timex.Time comes from '
+ 'TimevalFromNsec(<duration parameter>.Nanoseconds()) with ADJ_SETOFFSET|ADJ_NANO, Timex.Freq from ScaledPPMFromFreq with ADJ_FREQUENCY and is read back only through FreqFromScaledPPM, Timex.Offset from the '
+ 'duration parameter with ADJ_OFFSET|ADJ_NANO and STA_NANO, and that no other non-test file uses unix.Timex/ClockAdjtime',
+ 'drift clause: every non-zero int64 drift and int64 interval with |drift x interval| < (2^63 - 2^13) x 10^9 (all signs, C18_drift_odd / C18_drift_all_signs); the last 8192 ns below 2^63 wrap to MinInt64 (C18_drift_top_band); '
+ 'the drift ORACLE constrains 0 < drift, 0 <= interval, allowance < 2^62 ns',
  'frequency round trip: |x| <= 32768000 scaled ppm (the kernel range, 500 ppm); single directions: every float64 with |f| x 65536e6 < 2^62 resp. every int64'],
     trusted=['Flocq 4 (IEEE754.BinarySingleNaN/Binary/Bits) as the float64 semantics; theorems of this property that are purely integer are closed under the global '
  'context',
@@ -26,10 +33,10 @@ CONF = dict(
     level_text=('Theorems quantify over all int64 nanosecond counts, all 48-bit/ns CSPTP timestamps, all 64-bit correction fields and all non-overflowing offset/delay '
  'combinations; the float functions are modelled bit-exactly with Flocq and compared bit-for-bit with Go every run; the property oracle (normalisation, +-1 '
  'ulp ppm round trip, each conversion direction against exact rational arithmetic on the decoded float (sign, 2^-52 resp. 2^-51 relative), drift allowance >= 0, zero for the empty interval, within 1 ns + 2^-48 of drift x interval / 1e9, monotone and additive over two '
- "intervals, floor of correction fields, exact recovery of offset/delay and of both one-way delays under a UTC correction, all four CSPTP results against unbounded integer arithmetic) is evaluated on the implementation's outputs"),
+ "intervals, floor of correction fields, exact recovery of offset/delay and of both one-way delays under a UTC correction, all four CSPTP results against unbounded integer arithmetic, the real CSPTP client: offset = theta within the measured delay bounds, S2C delay exact, C2S and mean path delay within the bounds, independent of correction fields; re-encoded wire timestamps keep the instant; adjtimex call sites syntactically tied) is evaluated on the implementation's outputs"),
     level_note=('Trusted: Coq kernel, Flocq as float semantics, hand-written model validated by the correspondence run, extraction, harness. The +-1 ppm round-trip clause is '
  'proved for the whole kernel range by Flocq error analysis (C18_freq_roundtrip: the result is x or its neighbour toward zero). The drift clause is proved by Flocq error analysis '
  '(Proofs/UnitsFloatProofs.v: six roundings of at most 2^-53 each, no underflow/overflow, one truncation) on the range named in the assumptions; '
  'C18_drift_oracle and C18_drift_add_oracle state that the model meets both drift oracles on all int64 inputs.'),
-    min_cases={'csptp.formulas': 750, 'csptp.interval': 752, 'csptp.recover': 750, 'csptp.recover_delays': 750, 'csptp.time_of_ts': 187, 'csptp.ts_of_time': 937, 'csptp.ts_roundtrip': 750, 'units.drift': 1503, 'units.drift_add': 750, 'units.freq_of_ppm': 250, 'units.ppm_of_freq': 250, 'units.ppm_roundtrip': 750, 'units.timeval': 752},
+    min_cases={'csptp.formulas': 750, 'csptp.interval': 752, 'csptp.recover': 750, 'csptp.recover_delays': 750, 'csptp.client': 300, 'csptp.ts_reencode': 750, 'units.callsites': 1, 'csptp.time_of_ts': 187, 'csptp.ts_of_time': 937, 'csptp.ts_roundtrip': 750, 'units.drift': 1503, 'units.drift_add': 750, 'units.freq_of_ppm': 250, 'units.ppm_of_freq': 250, 'units.ppm_roundtrip': 750, 'units.timeval': 752},
 )
